@@ -1241,7 +1241,21 @@ def zooModel : List (String × String) :=
    ("nested_array_elem_write", "v:2|go:[[1 2] [3 4]]|[[1 2]]|[{1 []}]"),
    ("slice_of_array_elem_write", "v:2|go:[[1 2] [3 4]]|[[1 2]]|[{1 []}]"),
    ("slice_of_struct_field_write", "caught:TypeError|go:[[1 2] [3 4]]|[[1 2]]|[{1 []}]"),
-   ("nested_array_elem_read", "3,2,1|go:[[1 2] [3 4]]|[[1 2]]|[{1 []}]")]
+   ("nested_array_elem_read", "3,2,1|go:[[1 2] [3 4]]|[[1 2]]|[{1 []}]"),
+   ("tagopt_read_by_tag", "l,1,2,undefined|go:{Label:l Num:1 Multi:2 NoName:3 Dash:4 DashComma:5}"),
+   ("tagopt_read_by_name", "l,1,2,3,4,5|go:{Label:l Num:1 Multi:2 NoName:3 Dash:4 DashComma:5}"),
+   ("tagopt_in", "111111100|go:{Label:l Num:1 Multi:2 NoName:3 Dash:4 DashComma:5}"),
+   ("tagopt_write_by_tag", "x,7,8|go:{Label:x Num:7 Multi:8 NoName:3 Dash:4 DashComma:5}"),
+   ("tagopt_write_by_name", "y,9,6|go:{Label:y Num:1 Multi:2 NoName:9 Dash:4 DashComma:6}"),
+   ("tagopt_keys", "Dash,DashComma,Label,Multi,NoName,Num|go:{Label:x Num:1 Multi:2 NoName:3 Dash:4 DashComma:5}"),
+   ("tagopt_param", "{Label:x Num:7 Multi:8 NoName:9 Dash:0 DashComma:0}|go:{Label:l Num:1 Multi:2 NoName:3 Dash:4 DashComma:5}"),
+   ("tagopt_param_by_name", "{Label:x Num:7 Multi:0 NoName:0 Dash:0 DashComma:0}|go:{Label:l Num:1 Multi:2 NoName:3 Dash:4 DashComma:5}"),
+   ("tagopt_param_dashcomma", "caught:TypeError|go:{Label:l Num:1 Multi:2 NoName:3 Dash:4 DashComma:5}"),
+   ("unicode_field_name", "undefined,false,2,1|go:{Ärger:1 A:2}"),
+   ("struct_param_from_bridged_map", "{C:0 S:[]}"),
+   ("struct_param_from_other_struct", "{C:0 S:[]}"),
+   ("struct_param_from_same_struct", "{C:9 S:[]}"),
+   ("struct_param_from_plain_object", "{C:5 S:[]}")]
 
 /-! ## histories of calls of bridged Go functions: every call delivers its OWN result list (runtime.go, the
     reflect.Func arm of toValue: 0 results → undefined, 1 → the value, more → a fresh list) -/
